@@ -77,6 +77,15 @@ func vhDefBackrefCollide() Rules {
 	}
 }
 
+// \0 refers to the whole parent match: a run of a's is closed by a run of
+// the same length.
+func vhDefBackrefZero() Rules {
+	return Rules{
+		"Root": {{"Fence", `a+`, Push("F")}, {"Other", `b`, nil}},
+		"F":    {{"End", `\0`, Pop()}, {"Any", `[ab]`, nil}},
+	}
+}
+
 func VH_C09_Frame_Literal()       { vhC09Frame(vhDefLiteral(), false) }
 func VH_C09_Frame_PushPop()       { vhC09Frame(vhDefPushPop(), false) }
 func VH_C09_Frame_Return()        { vhC09Frame(vhDefReturn(), false) }
@@ -85,6 +94,8 @@ func VH_C09_Frame_Backref()       { vhC09Frame(vhDefBackref(), true) }
 
 func VH_C09_History_Backref() { vhC09History(vhDefBackref(), 3, 3, '<', 'a', '>') }
 func VH_C09_History_Collide() { vhC09History(vhDefBackrefCollide(), 2, 4, 'a', 0, 'b') }
+
+func VH_C09_History_Zero() { vhC09History(vhDefBackrefZero(), 2, 4, 'a', 'b', 'b') }
 
 func VH_C09_Canary() {
 	def, _ := New(vhDefLiteral())
